@@ -69,9 +69,10 @@ impl Rng {
     }
     pub fn angle(&mut self) -> f64 {
         use std::f64::consts::PI;
-        const FIXED: [f64; 14] = [
+        const FIXED: [f64; 22] = [
             0.0, PI, -PI, 2.0 * PI, PI / 2.0, -PI / 2.0, PI / 4.0, -PI / 4.0, PI / 8.0, 3.0 * PI,
             7.3, -11.9, 0.7, 1e-3,
+            -2.0 * PI, -3.0 * PI, 4.0 * PI, -4.0 * PI, 2.5 * PI, -2.5 * PI, 6.0 * PI, -5.0 * PI,
         ];
         if self.chance(1, 2) {
             *self.pick(&FIXED)
